@@ -506,3 +506,50 @@ def rule_Z1(prog, fixture=False):
                                     % (fld, ", ".join(leaves_zero[fld])), func=f.name)
     res.stats["division_sites_by_zero_initialised_members"] = n_sites
     return res
+
+
+# =================================================================================================
+# Z2 ZERO-DIVISOR-ARGUMENT: an integer division by a value the caller chooses is preceded by a live check that excludes zero (C05)
+def rule_Z2(prog, fixture=False):
+    from .rules_slice import INF
+    res = RuleResult("Z2", "every integer '/' or '%' whose divisor is a parameter, a construction-time constant member or a "
+                           "single-definition local of those is reached only with a non-zero divisor: 'divisor != 0' is proved "
+                           "along every call chain from the public entry points (chain.py), or refuted by the value 0 passing "
+                           "every live check on the way (SIGFPE instead of an exception)")
+    ch = Chain(prog, literal, _is_internal, canon)
+    n = 0
+    for f in sorted(prog.functions.values(), key=lambda f: (f.file, f.line, f.name)):
+        if f.get("implicit") or f.file.endswith("coverage.cc"):
+            continue
+        rel = prog.rel(f.file)
+        if not fixture and not (rel.startswith("lib/") or rel.startswith("include/")):
+            continue
+        idx = 0
+        for x in f.walk():
+            if not (x.k in ("BinaryOperator", "CompoundAssignOperator") and x.op in ("/", "%", "/=", "%=") and len(x.c) == 2
+                    and x.c[1].strip().tc == "int" and x.c[0].strip().tc == "int"):
+                continue
+            r = x.c[1].strip_all()
+            if r.k in ("IntegerLiteral", "UnaryExprOrTypeTraitExpr", "CharacterLiteral"):
+                continue
+            t = canon(r)
+            idx += 1
+            key = "Z2:%s:div%d" % (fkey(f), idx)
+            where = "%s:%d" % (rel, x.line)
+            what = "%s in %s" % (x.text()[:60], f.short)
+            extra = {"props": ["C05"]}
+            if "?" in t or not re.fullmatch(r"(p:\w+|this\.\w+|l:\w+#\d+)", t):
+                continue          # computed divisors (sizes, products, std::abs(m)): not in this rule
+            n += 1
+            f.blocks
+            st, msg, trail = ch.prove(f, x, ("cmp", t, (-INF, INF, 0)), [], 0, canon, [])
+            if st == "ok":
+                res.add(key, DISCHARGED, where, what, "divisor != 0: " + msg[:200], func=f.name, extra=extra)
+            elif st == "bad":
+                res.add(key, VIOLATED, where, what,
+                        "integer division by zero (SIGFPE, not an exception): " + msg.replace("reaches the belief", "reaches the division, which needs")
+                        .replace(", which is false for it", ""), func=f.name, extra=extra, path=trail)
+            else:
+                res.add(key, UNMODELLED, where, what, msg[:200], func=f.name, extra=extra)
+    res.stats["divisions_by_caller_values"] = n
+    return res
